@@ -83,6 +83,9 @@ func (c *Ctx) classifyStreamID(e *EmitSite) (string, bool) {
 		}
 		return fmt.Sprintf("constant %d", k), false
 	}
+	if msg := w.staleGoCapture(e.StreamID); msg != "" {
+		return "a loop variable shared between iterations: " + msg + " — the goroutine can read the id of a LATER frame, so the frame is attributed to another RPC", false
+	}
 	csID, ssID, _ := c.streamIDFields()
 	v := origin(e.StreamID)
 	// (a) load of the id field of the stream the method is running on / just allocated
@@ -1056,7 +1059,7 @@ func ruleRejectClose(c *Ctx, rule string) {
 		c.check(sends == 1 && !inLoop(e.Send.Block()), rule, key+": exactly one frame", w.At(e.Send), "one send, not in a loop", fmt.Sprintf("%d sends in the rejection goroutine", sends))
 		st := e.Payload["CloseStream.Status"]
 		good := false
-		if errArg, ok := statusProtoOfError(st); ok {
+		if errArg, ok := statusProtoOfError(st); ok && w.staleGoCapture(errArg) == "" {
 			ev := origin(errArg)
 			if arg, _ := w.throughSoleCallSite(ev); arg != nil {
 				ev = origin(arg)
